@@ -377,6 +377,8 @@ class Normaliser:
             sig = SIGNATURES.get(f.id)
         elif isinstance(f, ast.Attribute) and isinstance(f.value, ast.Name) and f.value.id in ('self', 'cls'):
             sig = METHOD_SIGNATURES.get(f.attr)
+        elif isinstance(f, ast.Attribute) and isinstance(f.value, ast.Call) and isinstance(f.value.func, ast.Name) and f.value.func.id == 'super':
+            sig = METHOD_SIGNATURES.get(f.attr)
         if sig and kwargs and not any(isinstance(a, ast.Starred) for a in e.args) and all(k != '**' for k, _ in kwargs):
             kw = dict(kwargs)
             lst = list(args)
